@@ -74,7 +74,7 @@ impl TryFrom<SubjectPublicKeyInfoRef<'_>> for Sm2PublicKey {
             .subject_public_key
             .as_bytes()
             .ok_or_else(|| der::Tag::BitString.value_error())?;
-        Ok(Sm2PublicKey::new(public_key_bytes).unwrap())
+        Sm2PublicKey::new(public_key_bytes).map_err(|_| pkcs8::spki::Error::KeyMalformed)
     }
 }
 
